@@ -2,8 +2,8 @@
     reference implementations (LibcNum.strtod_ref, LibcPrint.fmt_d): clause N2 — the text of
     sprintf "%d" of a C int is converted by strtod, completely, to exactly (double) of that int.
     (Clause S is [RoundTripEvidence.ref_scan], clause V [RoundTripRefValid.ref_valid].  The "%g"
-    clauses N3, N4, N4z, N5a, N5b are not proved for the reference; they are evaluated on the
-    table of RoundTripEvidence.v.)  Also: reading back the digits [dec_fixed] wrote, used by the
+    clauses N3, N4, N5a, N5b are proved for the reference in LibcG17*.v / LibcG15*.v (round 3),
+    N4z for every library in RoundTripZero.v; the table of RoundTripEvidence.v evaluates them too.)  Also: reading back the digits [dec_fixed] wrote, used by the
     artificial library of RoundTripModel.v. *)
 From CJ Require Import Base Dbl Tree LibcNum LibcPrint Grammar ParseDefs ParseComplete PrintDefs
   PrintStrict PrintStrictRef RoundTripNum RoundTripInt.
